@@ -13,7 +13,7 @@ LEVEL = 'fault_enumeration'
 RULE = ('Hypothesis cases: a repository made by 1..3 snapshots (encrypted or not, cache disabled or cold), then 1..3 '
         'corruptions of stored chunk/snapshot objects from {bit flip at any offset, truncate to any length incl. 0, append, '
         'swap two objects of an area, replay another valid object under this name, copy under a new well-formed name, '
-        'delete}, then restore (optionally filtered; twice when a cache directory is used). Oracle: restore raises, or '
+        'delete}, then restore (optionally filtered; twice when a cache directory is used; by a fresh Repository or by a long-lived one that restored the pristine repository before the damage). Oracle: restore raises, or '
         'returns with a tree equal to the expected result on the pristine repository (on the repository minus removed '
         'snapshot objects when snapshots were removed) and result.files equal to the files written. A fixed positive '
         'control (flipped byte in a needed chunk must raise) runs every time. Non-trivial: a damaged object is needed by '
@@ -43,7 +43,8 @@ def cases(draw):
     return {'settings': s, 'backend': draw(st.sampled_from(['mem', 'amem'])), 'snaps': snaps, 'corruptions': cor,
             'restore': {'snapshot': draw(st.one_of(st.none(), st.integers(0, 2))),
                         'file_regex': draw(st.sampled_from([None, None, 'a', '^.*/d/', 'b$|c$']))},
-            'cache': draw(st.sampled_from(['none', 'cold', 'cold'])), 'concurrent': draw(st.sampled_from([1, 2, 4]))}
+            'cache': draw(st.sampled_from(['none', 'cold', 'cold'])), 'concurrent': draw(st.sampled_from([1, 2, 4])),
+            'session': draw(st.booleans())}
 
 
 def strategy(tier):
@@ -119,6 +120,24 @@ def _run(case, work):
                         need.add(rd.chunk_location(sn['chunks'][c['index']]))
         return need
 
+    # a long-lived client: one Repository object lists/restores the pristine repository first and is used again after the damage
+    session_repo = None
+    cache = os.path.join(work, 'cache') if case['cache'] != 'none' else None
+    if case.get('session'):
+        import asyncio as _asyncio
+        session_loop = _asyncio.new_event_loop()
+        session_repo = world.repository(backend, n, cache)
+
+        async def warm():
+            await session_repo.unlock(password=cred.password, key=cred.key)
+            await session_repo.restore(snapshot_regex=sregex, file_regex=fre, path=Path(work, 'warm'))
+        try:
+            with world.capture():
+                session_loop.run_until_complete(warm())
+        except Exception as e:
+            return Outcome(fail('control', f'restore of the undamaged repository failed: {e!r}'), classes)
+        env.rmtree(os.path.join(work, 'warm'))
+        classes.append('long-lived-client')
     # apply corruptions
     removed_snaps, damaged = set(), set()
     for c in case['corruptions']:
@@ -166,7 +185,6 @@ def _run(case, work):
         classes.append('needed-object-damaged')
     E0, E1 = expected(set()), expected(removed_snaps)
     acceptable = [E0] if not removed_snaps else [E0, E1]
-    cache = os.path.join(work, 'cache') if case['cache'] != 'none' else None
     attempts = 2 if cache else 1
     for attempt in range(attempts):
         tgt = os.path.join(work, f'tgt{attempt}')
@@ -174,7 +192,11 @@ def _run(case, work):
         async def rest(repo):
             return await repo.restore(snapshot_regex=sregex, file_regex=fre, path=Path(tgt))
         try:
-            res, _ = world.run_cmd(backend, cred, rest, concurrent=n, cache=cache)
+            if session_repo is not None and attempt == 0:
+                with world.capture():
+                    res = session_loop.run_until_complete(rest(session_repo))
+            else:
+                res, _ = world.run_cmd(backend, cred, rest, concurrent=n, cache=cache)
         except Exception as e:
             classes.append('restore-raised')
             if case.get('expect') == 'ok':
